@@ -404,18 +404,28 @@ func (r *shareRun) block(dt time.Duration) bool {
 	for i := range due {
 		due[i] = sdkmath.ZeroInt()
 	}
+	dueSum := sdkmath.ZeroInt()
 	for _, u := range r.unb {
 		if !u.paid && !u.completion.After(newT) {
 			u.paid = true
 			due[u.rcpt] = due[u.rcpt].Add(u.amount)
+			dueSum = dueSum.Add(u.amount)
 			e.Stat("unbonding.paid")
 		}
 	}
+	// staking released less than the queue recorded (validator slashed): the end-blocker (fixed: it no longer fails the
+	// block) cannot pay every due entry; recorded finding C10-SLASH.  The history ends here: which entries stay queued
+	// is the model's business (compared above), the oracle below would only repeat it block after block.
+	cls := "other"
+	if r.slashed && matured.Add(preModBond).LT(dueSum) {
+		cls = "after_slash"
+		e.Stat("unpaid." + cls)
+	}
 	for i := range c.Accs {
 		got := sub2(r.bal2(r.acc(i)), preBal[i])
-		e.Oracle("undelegate_paid_once", got[0].Equal(due[i]) && got[1].IsZero(), "a%d received %s in the block at t=%d, due %s", i, str2(got), newT.UnixNano(), due[i])
+		e.Oracle("undelegate_paid_once", got[0].Equal(due[i]) && got[1].IsZero(), "class=%s a%d received %s in the block at t=%d, due %s", cls, i, str2(got), newT.UnixNano(), due[i])
 	}
-	return true
+	return cls == "other"
 }
 
 func newShareChain() (*sim.Chain, error) {
